@@ -20,6 +20,7 @@ type Object struct {
 	Valid int // >=0: only elements [0,Valid) of the backing array are input; reads beyond are region breaches
 	Name  string
 	Stale bool // elements are "stale"/garbage variables (C15, C01)
+	Lazy  *Str // UTF-8 bytes of a rune-represented string, not materialised (length unknown)
 	// happens-before bookkeeping (conc.go)
 	lastW  *access
 	lastR  []*access
@@ -222,6 +223,9 @@ func (e *Exec) load(p Ptr) Value {
 			panic(fmt.Sprintf("load: bad path into %T", v))
 		}
 	}
+	if p.Obj.Valid >= 0 && len(p.Path) == 1 {
+		e.checkRegion(p.Obj, p.Path[0], "read")
+	}
 	e.noteAccess(p, false)
 	return copyVal(v)
 }
@@ -306,6 +310,9 @@ func ptrEq(a, b Ptr) bool {
 }
 
 func (e *Exec) sliceArr(s Slice) *Array {
+	if s.Arr.Lazy != nil {
+		e.unsupported("byte access to the UTF-8 form of a symbolic rune string (only string<->[]byte conversion and the Latin-1 codec are modelled)")
+	}
 	return s.Arr.V.(*Array)
 }
 
